@@ -50,6 +50,10 @@ CLAIMS["C19"] = ("PARTIAL. Lean theorems over ℝ: the plane point IntersectExt 
                  "Trusted: Lean kernel + Mathlib; tidwall/geodesic as reference solver; harness.")
 CLAIMS["C14"] = ("PARTIAL. Lean theorems about a labelled transition system of Encode's two goroutines (producer: header, pipe writes, close, wait, gzip close; consumer: line filter) for every chunking, line structure, failing index k, compression flag and EVERY interleaving/read size: every step decreases a measure (terminates, run_length_bounded); a state where nobody can move is a returned state with the filter exited (no_deadlock); k < W always ends in an error (every_fault_index_fails), no fault always ends in success (no_fault_succeeds) with all bytes delivered (success_complete); result is schedule independent. The model is tied to the code by running the real encoder under a fault-injecting writer with a watchdog and goroutine accounting.",
                  "Trusted: Lean kernel; io.Pipe contract as modelled; harness watchdog.")
+CLAIMS["C01"] = ("PARTIAL. Lean theorems: the schema regenerated from types.go/encoder.go equals the committed one (every tag, omitempty, format/scan literal, replacer pair, cp1252 table); for EVERY text the encoder's output (Go EscapeText then the replacer) followed by markup is read back by the decoder's character-data reader as the same text with only non-XML characters substituted (text_roundtrip, text_roundtrip_exact); windows-1252 encode/decode inversion; Duration print/parse = truncation to centiseconds and stable re-encoding for every non-negative duration. The executable model of encoding/xml marshal/unmarshal + all 17 codecs must reproduce the implementation's bytes and decoded values on every generated database, and the implementation's own encode->decode->encode is judged against the declarative quantisation Spec.quant.",
+                 "Trusted: Lean kernel; hand model of encoding/xml; float<->decimal model validated per run; gzip / x-text as libraries.")
+CLAIMS["C13"] = ("PARTIAL. Lean theorems: schema tie; every document starts with the UTF-8 declaration; for EVERY text the bytes written are the character-wise LapTimer spelling and a strict character-data decoder (predefined entities only) returns the original text with non-XML characters substituted, never raw; LF/TAB literal, quotes as &quot;/&apos;; integers need no escaping. Tree-level strict well-formedness, exact element structure and all field grammars are decided per generated document by an independent strict tokenizer and grammar predicates; gzip output is gunzipped and compared.",
+                 "Trusted: Lean kernel; strict tokenizer/grammar predicates; float formatting model; compress/gzip.")
 
 NA_REASON = "check under construction in this round (design in DESIGN.md); will be claimed once its model, theorems and correspondence exist"
 
